@@ -36,10 +36,12 @@ type C10Case struct {
 	Key     string `json:"key"`    // key kind (see c10Keys)
 	Payload int    `json:"payload"`
 	BinSig  bool   `json:"binary_callback_signature,omitempty"` // debsign: the callback returns a binary (not armored) signature
-	Comp    string `json:"compression,omitempty"`
-	Via     string `json:"via"` // file | signfn
-	SigType string `json:"sig_type,omitempty"`
-	FailJ   int    `json:"fail_j"` // signfn: which call fails (-1 = none)
+	// InOverride: the signature settings are written in overrides.<format>.<block>.signature only
+	InOverride bool   `json:"signature_in_override,omitempty"`
+	Comp       string `json:"compression,omitempty"`
+	Via        string `json:"via"` // file | signfn
+	SigType    string `json:"sig_type,omitempty"`
+	FailJ      int    `json:"fail_j"` // signfn: which call fails (-1 = none)
 	// Rotate: the key file path first holds another key with which the same
 	// configuration is built once; then the file is replaced by the key under
 	// test and the package is built again (in the same process).
@@ -56,14 +58,16 @@ var c10KeyNames = map[string]string{
 	"suffixed":        "origin.rsa.pub",
 	"mail":            "builder@example.com",
 	"from-maintainer": "",
-	"len82":           strings.Repeat("k", 82),
-	"len83":           strings.Repeat("k", 83),
-	"len90":           strings.Repeat("k", 90),
-	"len99":           strings.Repeat("k", 99),
-	"len160":          strings.Repeat("k", 160),
-	"non-ascii":       "schl\u00fcssel@example.com",
-	"slash":           "dir/key",
-	"space":           "my key",
+	// derived from a maintainer address that has upper-case letters: kept as written
+	"from-maintainer-mixed-case": "",
+	"len82":                      strings.Repeat("k", 82),
+	"len83":                      strings.Repeat("k", 83),
+	"len90":                      strings.Repeat("k", 90),
+	"len99":                      strings.Repeat("k", 99),
+	"len160":                     strings.Repeat("k", 160),
+	"non-ascii":                  "schl\u00fcssel@example.com",
+	"slash":                      "dir/key",
+	"space":                      "my key",
 	// names whose last characters are letters that also occur in ".rsa.pub"
 	"ends-r":   "packager",
 	"ends-us":  "ops@example.us",
@@ -72,7 +76,7 @@ var c10KeyNames = map[string]string{
 	"ends-rsa": "builder.rsa",
 	"dots":     "a.b.",
 }
-var c10KeyNameOrder = []string{"suffixed", "mail", "from-maintainer", "len82", "len83", "len90", "len99", "len160", "non-ascii", "slash", "space", "ends-r", "ends-us", "ends-b", "is-pub", "ends-rsa", "dots"}
+var c10KeyNameOrder = []string{"suffixed", "mail", "from-maintainer", "from-maintainer-mixed-case", "len82", "len83", "len90", "len99", "len160", "non-ascii", "slash", "space", "ends-r", "ends-us", "ends-b", "is-pub", "ends-rsa", "dots"}
 
 type c10Key struct {
 	file, pub string
@@ -108,19 +112,23 @@ var c10Keys = map[string]c10Key{
 	"armored-trailing-text":       {file: "GEN:trailing-text", pub: "pubkey"},
 	"keyid-decimal":               {file: "decimal_priv.asc", pub: "decimal_pub", keyID: "4399095419976992"},
 	"decimal-no-keyid":            {file: "decimal_priv.asc", pub: "decimal_pub"},
-	"pkcs1":                       {file: "rsa_unprotected.priv", pub: "rsa_unprotected.pub", apk: true},
-	"pkcs8":                       {file: "rsa_pkcs8.priv", pub: "rsa_pkcs8.pub", apk: true},
-	"pkcs8-4096":                  {file: "rsa4096.priv", pub: "rsa4096.pub", apk: true},
-	"encrypted-pem":               {file: "rsa.priv", pub: "rsa.pub", givePass: "hunter2", passVar: "FORMAT", apk: true},
-	"encrypted-pem-general":       {file: "rsa.priv", pub: "rsa.pub", givePass: "hunter2", passVar: "NFPM_PASSPHRASE", apk: true},
-	"encrypted-pem-wrong":         {file: "rsa.priv", pub: "rsa.pub", givePass: "nope", passVar: "FORMAT", apk: true, wantFail: true},
+	// the key file reached through a symbolic link (a mounted secret)
+	"armored-symlink":       {file: "LINK:privkey_unprotected.asc", pub: "pubkey"},
+	"protected-symlink":     {file: "LINK:privkey.asc", pub: "pubkey", givePass: "hunter2", passVar: "FORMAT"},
+	"pkcs1-symlink":         {file: "LINK:rsa_unprotected.priv", pub: "rsa_unprotected.pub", apk: true},
+	"pkcs1":                 {file: "rsa_unprotected.priv", pub: "rsa_unprotected.pub", apk: true},
+	"pkcs8":                 {file: "rsa_pkcs8.priv", pub: "rsa_pkcs8.pub", apk: true},
+	"pkcs8-4096":            {file: "rsa4096.priv", pub: "rsa4096.pub", apk: true},
+	"encrypted-pem":         {file: "rsa.priv", pub: "rsa.pub", givePass: "hunter2", passVar: "FORMAT", apk: true},
+	"encrypted-pem-general": {file: "rsa.priv", pub: "rsa.pub", givePass: "hunter2", passVar: "NFPM_PASSPHRASE", apk: true},
+	"encrypted-pem-wrong":   {file: "rsa.priv", pub: "rsa.pub", givePass: "nope", passVar: "FORMAT", apk: true, wantFail: true},
 	// an encrypted PEM key whose passphrase begins and ends with a blank (generated at run time from the unprotected key)
 	"encrypted-pem-padded-pass": {file: "GENPEM: hunter2 ", pub: "rsa_unprotected.pub", givePass: " hunter2 ", passVar: "FORMAT", apk: true},
 	"pem-garbage":               {file: "wrong_key_format.priv", pub: "rsa.pub", apk: true, wantFail: true},
 }
 
-var c10PGPKeys = []string{"subkey-only-with-passphrase", "armored-with-passphrase", "binary-with-passphrase", "armored-leading-blank", "armored-leading-text", "armored-crlf", "armored-trailing-text", "keyid-decimal", "decimal-no-keyid", "armored", "binary", "protected", "protected-binary", "subkey-only", "keyid-primary", "keyid-subkey", "wrong-passphrase", "no-passphrase", "multiple-keys", "keyid-invalid", "key-missing"}
-var c10APKKeys = []string{"encrypted-pem-padded-pass", "pkcs1", "pkcs8", "pkcs8-4096", "encrypted-pem", "encrypted-pem-general", "encrypted-pem-wrong", "pem-garbage"}
+var c10PGPKeys = []string{"armored-symlink", "protected-symlink", "subkey-only-with-passphrase", "armored-with-passphrase", "binary-with-passphrase", "armored-leading-blank", "armored-leading-text", "armored-crlf", "armored-trailing-text", "keyid-decimal", "decimal-no-keyid", "armored", "binary", "protected", "protected-binary", "subkey-only", "keyid-primary", "keyid-subkey", "wrong-passphrase", "no-passphrase", "multiple-keys", "keyid-invalid", "key-missing"}
+var c10APKKeys = []string{"pkcs1-symlink", "encrypted-pem-padded-pass", "pkcs1", "pkcs8", "pkcs8-4096", "encrypted-pem", "encrypted-pem-general", "encrypted-pem-wrong", "pem-garbage"}
 
 // c10Payloads is the number of payload shapes (0 = empty).
 const c10Payloads = 7
@@ -284,6 +292,22 @@ func init() {
 							return
 						}
 					}
+				}
+			}
+			// the signature settings stated only in the override block of the format (keys with and without passphrase)
+			for _, k := range []string{"armored", "protected", "protected-binary", "keyid-subkey", "wrong-passphrase"} {
+				for _, m := range []string{"debsign", "dpkg-sig"} {
+					if !yield(C10Case{Format: "deb", Method: m, Key: k, Payload: 1, Via: "file", FailJ: -1, InOverride: true}) {
+						return
+					}
+				}
+				if !yield(C10Case{Format: "rpm", Method: "rpm", Key: k, Payload: 1, Via: "file", FailJ: -1, InOverride: true}) {
+					return
+				}
+			}
+			for _, k := range []string{"pkcs1", "encrypted-pem", "encrypted-pem-general", "encrypted-pem-wrong"} {
+				if !yield(C10Case{Format: "apk", Method: "apk", Key: k, Payload: 1, Via: "file", FailJ: -1, InOverride: true}) {
+					return
 				}
 			}
 			// signing callbacks: succeed, and fail at call j
@@ -515,6 +539,15 @@ func checkC10(env *engine.Env, ci any) engine.Outcome {
 			}
 			sigm["key_file"] = gp
 		}
+		if strings.HasPrefix(key.file, "LINK:") {
+			lp := filepath.Join(env.Scratch, "link-to-"+strings.TrimPrefix(key.file, "LINK:"))
+			os.Remove(lp)
+			if err := os.Symlink(keyPath(env, strings.TrimPrefix(key.file, "LINK:")), lp); err != nil {
+				out.HarnessError = err.Error()
+				return out
+			}
+			sigm["key_file"] = lp
+		}
 		if strings.HasPrefix(key.file, "GEN:") {
 			// the armored test key re-written the way key files reach a build in practice (a secret pasted from a YAML
 			// block or heredoc: leading blank line, a comment line in front, CRLF line ends, text after the block)
@@ -563,6 +596,10 @@ func checkC10(env *engine.Env, ci any) engine.Outcome {
 			if kn == "" {
 				delete(sigm, "key_name")
 				kn = "jane@example.com" // the address of the configured maintainer
+				if c.KeyName == "from-maintainer-mixed-case" {
+					d["maintainer"] = "John Doe <John.Doe@Example.COM>"
+					kn = "John.Doe@Example.COM"
+				}
 			} else {
 				sigm["key_name"] = kn
 			}
@@ -571,6 +608,14 @@ func checkC10(env *engine.Env, ci any) engine.Outcome {
 	}
 	blk["signature"] = sigm
 	d[blockName] = blk
+	if c.InOverride {
+		// the signature block is stated in the override block of the format only
+		delete(blk, "signature")
+		if len(blk) == 0 {
+			delete(d, blockName)
+		}
+		d["overrides"] = map[string]any{f: map[string]any{blockName: map[string]any{"signature": sigm}}}
+	}
 	envm := map[string]string{}
 	if key.givePass != "" {
 		v := key.passVar
@@ -665,7 +710,7 @@ func checkC10(env *engine.Env, ci any) engine.Outcome {
 	if viaFn(c) && c.FailJ >= 0 {
 		expectFail = true
 	}
-	out.Key = fmt.Sprintf("%s:%s:%s:%d:%s:%s:%s:%d:%v:%s:%s:err=%v", f, c.Method, c.Key, c.Payload, c.Comp, c.Via, c.SigType, c.FailJ, c.Rotate, c.SDE, c.KeyName+fmt.Sprint(c.BinSig), perr != nil)
+	out.Key = fmt.Sprintf("%s:%s:%s:%d:%s:%s:%s:%d:%v:%s:%s:err=%v", f, c.Method, c.Key, c.Payload, c.Comp, c.Via, c.SigType, c.FailJ, c.Rotate, c.SDE, c.KeyName+fmt.Sprint(c.BinSig, c.InOverride), perr != nil)
 	if expectFail {
 		why := "signing cannot succeed"
 		if perr == nil {
